@@ -161,6 +161,8 @@ def run_exec(case: Dict[str, Any]) -> Dict[str, Any]:
 
     ctx = Ctx({"spec": case["spec"], "controller": case.get("controller"), "opts": {"record_generators": False}, "case_seed": 0})
     steps = []
+    summary = None
+    error = None
     try:
         rp = load_case(ctx)
         from nrel.hive.runner.runner_payload_ops import set_instruction_generators, update_instruction_generator_safe
@@ -189,9 +191,27 @@ def run_exec(case: Dict[str, Any]) -> Dict[str, Any]:
         with contextlib.redirect_stdout(io.StringIO()):
             summary = rp.e.reporter.get_summary_stats(rp)
         summary = json.loads(json.dumps(summary, sort_keys=True, default=str))
+    except Exception as e:
+        # an execution that fails is an outcome like any other: it is compared with the other executions of the scenario
+        # (all of them failing alike = an unusable scenario, reported as a harness problem, never as a verdict)
+        import traceback
+
+        tb = traceback.extract_tb(e.__traceback__)
+        if any("/hivemon/" in f.filename for f in tb[-1:]):
+            raise
+        last = next((f for f in reversed(tb) if "/nrel/hive/" in f.filename), tb[-1])
+        error = {"type": type(e).__name__, "where": f"{os.path.basename(last.filename)}:{last.name}", "message": str(e)[:300], "after_steps": len(steps)}
     finally:
         cleanup(ctx)
-    return {"id": case["id"], "scenario": case["scenario"], "hashseed": os.environ.get("PYTHONHASHSEED"), "steps": steps, "summary": summary, "hook_calls": dict(hooks.REC.calls), "violations": [], "counters": {"steps": len(steps)}}
+    return {"id": case["id"], "scenario": case["scenario"], "hashseed": os.environ.get("PYTHONHASHSEED"), "solo": bool(case.get("solo")), "position_in_process": _bump_position(), "steps": steps, "summary": summary, "error": error, "hook_calls": dict(hooks.REC.calls), "violations": [], "counters": {"steps": len(steps)}}
+
+
+_POSITION = [0]
+
+
+def _bump_position() -> int:
+    _POSITION[0] += 1
+    return _POSITION[0] - 1
 
 
 def shipped_spec(which, overrides=None):
@@ -226,9 +246,21 @@ def build_cases(tier, seed):
         ctrl = {"stack": ["Dispatcher", "ChargingFleetManager", {"hostile": {"p": 0.2, "seed": 7}}]} if name.startswith("tie") and j % 3 == 2 else None
         if name.startswith("queue"):
             ctrl = {"stack": ["ChargingFleetManager", {"benign_queue": {"p_leave": 0.05, "p_abandon": 0.02, "seed": 3}}]}
-        for hs in hss + [hss[0]]:  # the first seed is repeated: plain process-to-process repeatability
+        for hs in hss:
             cases.append({"engine": "c01_exec", "id": f"C01-{name}-hs{hs}-{len(cases)}", "scenario": name, "spec": spec, "steps": st, "hashseed": hs, "controller": ctrl})
-    return cases
+        # the first seed is repeated in a process of its own: plain process-to-process repeatability, and "first simulation
+        # this interpreter loads" against "loaded after other scenarios in the same interpreter" (the shared workers above)
+        cases.append({"engine": "c01_exec", "id": f"C01-{name}-hs{hss[0]}-solo-{len(cases)}", "scenario": name, "spec": spec, "steps": st, "hashseed": hss[0], "controller": ctrl, "solo": True})
+    # shared workers run their scenarios in a different order per hash seed, so a scenario has different predecessors
+    out = [c for c in cases if c.get("solo")]
+    for k, hs in enumerate(hss):
+        cs = [c for c in cases if not c.get("solo") and c["hashseed"] == hs]
+        r = (k * 5 + 1) % max(1, len(cs))
+        cs = cs[r:] + cs[:r]
+        if k % 2:
+            cs.reverse()
+        out.extend(cs)
+    return out
 
 
 def main(tier, seed):
@@ -247,8 +279,14 @@ def main(tier, seed):
                 by_scen.setdefault(r["scenario"], []).append(r)
         compared = 0
         ties = {"tie_plug_rank": 0, "tie_multi_fleet_double_proposal": 0, "nearest_entity_calls": 0, "tie_nearest_entity": 0, "tie_nearest_entity_across_search_cells": 0}
+        after_others = 0
         for name, rs in sorted(by_scen.items()):
+            rs.sort(key=lambda r: (not r.get("solo"), r["id"]))  # the reference is the execution that had an interpreter to itself
             ref = rs[0]
+            after_others += sum(1 for r in rs if r.get("position_in_process", 0) > 0)
+            if all(r.get("error") for r in rs):
+                v.problems.append(f"scenario {name} fails in every execution: {ref['error']}")
+                continue
             hc = ref.get("hook_calls", {})
             for k in ties:
                 ties[k] += hc.get(k, 0)
@@ -262,6 +300,8 @@ def main(tier, seed):
                     v.violate(w["mechanism"], f"scenario {name}: hash seed {ref['hashseed']} vs {o['hashseed']}: {w['message']}", {"differential": [by_id.get(ref["id"], {}), case]}, **w.get("witness", {}))
             v.samples.append({"scenario": name, "executions": len(rs), "hash_seeds": [r["hashseed"] for r in rs], "steps": len(ref["steps"]), "events": sum(s["n_events"] for s in ref["steps"]), "ties": {k: hc.get(k, 0) for k in ties}})
         v.coverage["executions_compared"] = compared
+        v.coverage["executions_after_other_scenarios_in_the_same_process"] = after_others
+        v.floor("executions_after_other_scenarios_in_the_same_process", after_others, len(by_scen))
         v.coverage["tie_opportunities"] = ties
         v.coverage["steps_compared"] = sum(len(rs[0]["steps"]) * (len(rs) - 1) for rs in by_scen.values())
         v.floor("executions_compared", compared, (len(cases) * 3) // 5)
@@ -273,6 +313,13 @@ def main(tier, seed):
 
 
 def first_difference(a, b):
+    ea, eb = a.get("error"), b.get("error")
+    if (ea is None) != (eb is None) or (ea and eb and (ea["type"], ea["where"], ea["after_steps"]) != (eb["type"], eb["where"], eb["after_steps"])):
+        def d(r):
+            e = r.get("error")
+            how = "alone in its process" if r.get("solo") else f"as simulation #{r.get('position_in_process', 0) + 1} of its process"
+            return f"{how}: " + (f"{e['type']} in {e['where']} after {e['after_steps']} steps ({e['message'][:120]})" if e else f"ran {len(r['steps'])} steps")
+        return {"mechanism": "fails-in-one-process-only", "message": f"{d(a)} / {d(b)}"}
     for k, (x, y) in enumerate(zip(a["steps"], b["steps"])):
         if x["t"] != y["t"]:
             return {"mechanism": "clock-differs", "message": f"step {k}: clock {x['t']} vs {y['t']}"}
